@@ -31,19 +31,34 @@ fn err_class(e: &str) -> String {
     match (e.find('['), e.find(']')) { (Some(a), Some(b)) if a < b => format!("(err {})", &e[a + 1..b]), _ => "(err ?)".into() }
 }
 
-fn fold_case(kind: &str, n: usize, scoped: bool) -> Case {
+fn fold_case(kind: &str, n: usize, scoped: bool) -> Case { fold_case_styled(kind, n, scoped, 0) }
+
+/// `style` 0: leaves `x_i`; 1: `x_i * (i + 1)` / `not b_i`; 2: `x_i + x_{i + 1}` / `b_i and b_{i + 1}`.
+/// The leaves of the request are the implementation's own transformation of each leaf on its own.
+fn fold_case_styled(kind: &str, n: usize, scoped: bool, style: u8) -> Case {
     let logic = matches!(kind, "all" | "any" | "xor");
-    let v = if logic { "b" } else { "x" };
-    let agg = if scoped { format!("{}(i in 0..{}) {{ {}_i }}", kind, n, v) } else { format!("{}{{ {} }}", kind, (0..n).map(|i| format!("{}_{}", v, i)).collect::<Vec<_>>().join(", ")) };
-    let src = format!("min 1\ns.t.\n    {}{}\ndefine\n    x_i as Real(0, 9) for i in 0..8\n    b_i as Boolean for i in 0..8\n", agg, if logic { "" } else { " <= 1" });
-    let leaves = (0..n).map(|i| format!("(var \"{}_{}\")", v, i)).collect::<Vec<_>>().join(" ");
+    let leaf = |i: &str| -> String {
+        match (logic, style) {
+            (false, 0) => format!("x_{}", i), (false, 1) => format!("x_{} * ({} + 1)", i, i), (false, _) => format!("(x_{} + x_{{{} + 1}})", i, i),
+            (true, 0) => format!("b_{}", i), (true, 1) => format!("not b_{}", i), (true, _) => format!("(b_{} and b_{{{} + 1}})", i, i),
+        }
+    };
+    let agg = if scoped { format!("{}(i in 0..{}) {{ {} }}", kind, n, leaf("i")) } else { format!("{}{{ {} }}", kind, (0..n).map(|i| leaf(&i.to_string())).collect::<Vec<_>>().join(", ")) };
+    let decl = "define\n    x_i as Real(0, 9) for i in 0..9\n    b_i as Boolean for i in 0..9\n";
+    let src = format!("min 1\ns.t.\n    {}{}\n{}", agg, if logic { "" } else { " <= 1" }, decl);
+    let leaves = if style == 0 {
+        (0..n).map(|i| format!("(var \"{}_{}\")", if logic { "b" } else { "x" }, i)).collect::<Vec<_>>().join(" ")
+    } else {
+        let lsrc = format!("min 1\ns.t.\n    x_0 >= 0\n{}{}", (0..n).map(|i| format!("    {}{}\n", leaf(&i.to_string()), if logic { "" } else { " <= 1" })).collect::<String>(), decl);
+        match compile(&lsrc) { Ok(m) => m.constraints().iter().skip(1).map(|c| sx::exp(c.lhs())).collect::<Vec<_>>().join(" "), Err(_) => "(leaf-error)".into() }
+    };
     let req = format!("fold {} ({})", kind, leaves).replace("( ", "(");
     let imp = match compile(&src) {
         Ok(m) => format!("(ok {})", sx::exp(m.constraints()[0].lhs())),
         Err(e) => err_class(&e),
     };
     let oracle = if imp.starts_with("(ok") { format!("fold-value {} ({}) {}", kind, leaves, imp) } else { String::new() };
-    let mut c = mk(req, imp, &[&format!("fold:{}", kind), &format!("fold-size:{}", n.min(4)), if scoped { "fold-form:scoped" } else { "fold-form:block" }], src);
+    let mut c = mk(req, imp, &[&format!("fold:{}", kind), &format!("fold-size:{}", n.min(4)), if scoped { "fold-form:scoped" } else { "fold-form:block" }, &format!("fold-leaf-style:{}", style)], src);
     c.oracle = oracle;
     c
 }
@@ -112,6 +127,14 @@ pub fn model_cases(r: &mut Rng, n: usize) -> Vec<Case> {
     }
     for kind in ["min", "max", "avg", "abs", "all", "any", "xor"] { out.push(fold_case(kind, 1, false)); }
     out.push(fold_case("abs", 2, false));
+    out.push(fold_case("abs", 0, false));
+    // composite leaves (arithmetic on the iteration variable, computed compound indexes, logic operators)
+    for style in [1u8, 2] {
+        for kind in ["sum", "prod", "avg", "min", "max", "all", "any", "xor"] {
+            for k in 0..5 { out.push(fold_case_styled(kind, k, true, style)); if k > 0 && kind != "sum" && kind != "prod" { out.push(fold_case_styled(kind, k, false, style)); } }
+        }
+        out.push(fold_case_styled("abs", 1, false, style));
+    }
     // ---- ranges (boundary pairs exhaustively, then random)
     let mut pairs: Vec<(i64, i64)> = vec![];
     for lo in -3..=3 { for hi in -3..=4 { pairs.push((lo, hi)); } }
@@ -571,8 +594,10 @@ pub fn program_cases(r: &mut Rng, n: usize) -> Vec<Case> {
             decls.iter().map(|d| format!(" (decl ({}) {} {})", d.vars.iter().map(name_sx).collect::<Vec<_>>().join(" "), ty_sx(&d.ty), its_sx(&d.its))).collect::<String>());
         if std::env::var("PRE_DEBUG").is_ok() { eprintln!("=== fragment program\n{}", text); }
         if crate::props::c18::depths(&text).0 >= 9 { continue; }
-        let imp = match compile(&text) { Ok(m) => format!("(ok {})", sx::model(&m)), Err(_) => "(err)".into() };
+        let mut eclass = String::new();
+        let imp = match compile(&text) { Ok(m) => format!("(ok {})", sx::model(&m)), Err(e) => { eclass = err_class(&e); "(err)".into() } };
         let mut c = mk(format!("transformprog {}", sxp), imp.clone(), &["fragment:program", if logic { "fragment:logic" } else { "fragment:arith" }], text.clone());
+        if !eclass.is_empty() { c.tags.push(format!("program-error:{}", eclass)); }
         c.tags.push(if imp == "(err)" { "program-outcome:error".into() } else { "program-outcome:model".into() });
         c.tags.push(format!("program-consts:{}", consts.len()));
         c.nontrivial = imp != "(err)";
